@@ -156,14 +156,9 @@ func (f *Formatter) formatBlockStatement(stmt *ast.BlockStatement) string {
 	return trimMultipleLineFeeds(buf.String())
 }
 
-// A statement starts a new group of lines when an empty line is printed above it,
-// either above the statement itself or above its leading comments.
+// A statement starts a new group of lines when an empty line is printed above it
 func (f *Formatter) startsGroup(stmt ast.Statement) bool {
-	meta := stmt.GetMeta()
-	if meta.PreviousEmptyLines > 0 {
-		return true
-	}
-	return len(meta.Leading) > 0 && meta.Leading[0].PreviousEmptyLines > 0
+	return startsGroup(stmt.GetMeta())
 }
 
 // Format declare local variable statement
@@ -432,7 +427,7 @@ func (f *Formatter) formatCaseSectionStatements(cs *ast.CaseStatement) string {
 		if !f.conf.IndentCaseLabels {
 			meta.Nest--
 		}
-		if meta.PreviousEmptyLines > 0 {
+		if startsGroup(meta) {
 			group.Lines = append(group.Lines, lines)
 			lines = Lines{}
 		}
